@@ -25,6 +25,7 @@ class Ob:
     detail: str = ""
     path: Optional[List[str]] = None
     note: bool = False  # informational, never a finding
+    undecided: bool = False  # the clause's anchor constructs were not recognised on this tree: neither discharged nor violated
 
     @property
     def key(self) -> str:
@@ -129,6 +130,16 @@ class Ctx:
             construct = norm(construct)
         return Ob(rule, tuple(props), site, construct, loc, ok, detail, path, note)
 
+    def tri(self, rule: str, props, f_or_site, construct, node=None, ok: Optional[bool] = True, detail="", path=None) -> Ob:
+        """Three-valued obligation: True discharged, False violated (a recognised
+        shape with a wrong slot), None undecided (the shape this clause reads was
+        not recognised: reported as a note, never as a violation)."""
+        if ok is None:
+            o = self.ob(rule, props, f_or_site, construct, node, False, "UNDECIDED: " + (detail or "shape not recognised"), path, note=True)
+            o.undecided = True
+            return o
+        return self.ob(rule, props, f_or_site, construct, node, bool(ok), "" if ok else detail, path)
+
     def doc_text(self, name: str) -> str:
         p = os.path.join(self.root, "docs", "sphinx", name)
         try:
@@ -157,7 +168,7 @@ def run_rule(ctx: Ctx, rd: RuleDef) -> List[Ob]:
         tb = traceback.extract_tb(e.__traceback__)
         where = f"{tb[-1].filename.split('/')[-1]}:{tb[-1].lineno}" if tb else "?"
         raise AnalysisError(f"rule {rd.name} could not analyse this shape ({type(e).__name__}: {e} at {where})") from e
-    n = sum(1 for o in obs if not o.note)
+    n = sum(1 for o in obs if not o.note or o.undecided)
     if n < rd.floor:
         raise AnalysisError(
             f"rule {rd.name}: {n} instances matched, below the hand-confirmed floor {rd.floor} "
